@@ -1025,3 +1025,190 @@ Proof.
     + rewrite spec_trace_pass by assumption. rewrite Z.eqb_refl. cbn [negb]. now rewrite trace_eqb_refl.
     + rewrite (spec_trace_block mws (Some d)) by assumption. now rewrite trace_eqb_refl.
 Qed.
+
+(* ------------------------------------------------------------------ *)
+(** * histories: operations and dispatches interleaved on one router *)
+
+Lemma apply_ops_app st a b : apply_ops st (a ++ b) = apply_ops (apply_ops st a) b.
+Proof. unfold apply_ops. apply fold_left_app. Qed.
+
+Lemma hops_app a b : hops (a ++ b) = hops a ++ hops b.
+Proof. unfold hops. apply flat_map_app. Qed.
+
+Lemma run_hist_app mws : forall a b st,
+  run_hist st mws (a ++ b) = run_hist st mws a ++ run_hist (apply_ops st (hops a)) mws b.
+Proof.
+  induction a as [|s a IH]; intros b st; [reflexivity|].
+  destruct s as [o|segs order]; cbn [app run_hist].
+  - rewrite IH. reflexivity.
+  - rewrite IH. reflexivity.
+Qed.
+
+Lemma run_hist_length mws : forall h st, length (run_hist st mws h) = hserves h.
+Proof.
+  induction h as [|s h IH]; intros st; [reflexivity|].
+  destruct s as [o|segs order]; cbn [run_hist]; unfold hserves in *; cbn [filter length]; now rewrite IH.
+Qed.
+
+(* HISTORY INDEPENDENCE: the k-th dispatch of a history is the dispatch of a
+   router on which only the OPERATIONS before it were performed -- the dispatches
+   before it (of the same or of other paths) have no influence -- and it
+   satisfies the property predicate against the routes registered at that
+   moment *)
+Theorem hist_dispatch st0 mws pre segs order post : wf st0 ->
+  let st := apply_ops st0 (hops pre) in
+  nth_error (run_hist st0 mws (pre ++ HServe segs order :: post)) (hserves pre)
+    = Some (serve st mws order segs) /\
+  (Permutation order (routes_of st) ->
+   dispatch_class (sregs_of st) (st_default st) mws (filter_path (path_of segs))
+     (fst (serve st mws order segs)) (snd (serve st mws order segs)) = 0%N).
+Proof.
+  intros Hwf st. split.
+  - rewrite run_hist_app. cbn [run_hist]. fold st.
+    rewrite nth_error_app2 by (rewrite run_hist_length; lia).
+    rewrite run_hist_length, Nat.sub_diag. reflexivity.
+  - intros Hp. apply dispatch_spec; [|exact Hp]. unfold st. now apply apply_ops_wf.
+Qed.
+
+(* what an operation does to the registered set, pattern by pattern *)
+Lemma map_set_get m k v k0 :
+  map_get (map_set m k v) k0 = if str_eqb k k0 then Some v else map_get m k0.
+Proof.
+  induction m as [|[k' v'] m IH]; cbn [map_set map_get].
+  - reflexivity.
+  - destruct (str_eqb k' k) eqn:E.
+    + apply str_eqb_eq in E. subst k'. cbn [map_get]. destruct (str_eqb k k0); reflexivity.
+    + cbn [map_get]. destruct (str_eqb k' k0) eqn:E0.
+      * apply str_eqb_eq in E0. subst k0. apply str_eqb_neq in E.
+        rewrite (proj2 (str_eqb_neq k k')); [reflexivity|congruence].
+      * exact IH.
+Qed.
+
+Lemma map_del_get m k k0 :
+  map_get (map_del m k) k0 = if str_eqb k k0 then None else map_get m k0.
+Proof.
+  induction m as [|[k' v'] m IH]; cbn [map_del map_get].
+  - now destruct (str_eqb k k0).
+  - destruct (str_eqb k' k) eqn:E.
+    + apply str_eqb_eq in E. subst k'. rewrite IH. destruct (str_eqb k k0); reflexivity.
+    + cbn [map_get]. destruct (str_eqb k' k0) eqn:E0.
+      * apply str_eqb_eq in E0. subst k0. apply str_eqb_neq in E.
+        rewrite (proj2 (str_eqb_neq k k')); [reflexivity|congruence].
+      * exact IH.
+Qed.
+
+Lemma map_get_in m k r : map_get m k = Some r -> In (k, r) m.
+Proof.
+  induction m as [|[k' v'] m IH]; cbn [map_get]; [discriminate|].
+  destruct (str_eqb k' k) eqn:E.
+  - apply str_eqb_eq in E. subst k'. intros [= ->]. now left.
+  - intros H. right. now apply IH.
+Qed.
+
+Lemma in_map_get m k r : NoDup (map fst m) -> In (k, r) m -> map_get m k = Some r.
+Proof.
+  induction m as [|[k' v'] m IH]; intros Hnd Hin; [destruct Hin|].
+  cbn [map fst] in Hnd. inversion Hnd as [|? ? Hni Hnd']; subst. cbn [map_get].
+  destruct Hin as [[= -> ->]|Hin].
+  - now rewrite str_eqb_refl.
+  - destruct (str_eqb k' k) eqn:E.
+    + apply str_eqb_eq in E. subst k'. exfalso. apply Hni. change k with (fst (k, r)). now apply in_map.
+    + now apply IH.
+Qed.
+
+(* the registered set is a finite map pattern -> route *)
+Theorem registered_lookup st k r : wf st ->
+  (map_get (st_routes st) k = Some r <-> In r (routes_of st) /\ r_pat r = k).
+Proof.
+  intros [Hnd Hr]. split.
+  - intros H. apply map_get_in in H. split; [|now apply (Hr k r)].
+    unfold routes_of. change r with (snd (k, r)). now apply in_map.
+  - intros [Hin Hk]. unfold routes_of in Hin. apply in_map_iff in Hin as ([k' r'] & Heq & Hin).
+    cbn in Heq. subst r'. destruct (Hr k' r Hin) as [Hp _]. rewrite Hp in Hk. subst k'.
+    now apply in_map_get.
+Qed.
+
+(* Handle(pat, h) that returned nil: pat is registered with h (a route of the
+   same pattern is replaced), every other pattern keeps its route *)
+Theorem handle_effect st pat h : snd (apply_op st (OHandle pat (Some h))) = ResOk ->
+  let st' := fst (apply_op st (OHandle pat (Some h))) in
+  (exists cs, new_route_regexp (filter_path pat) = COk cs /\
+     map_get (st_routes st') (filter_path pat) = Some (mkRoute h (filter_path pat) cs)) /\
+  (forall k, k <> filter_path pat -> map_get (st_routes st') k = map_get (st_routes st) k) /\
+  st_default st' = st_default st.
+Proof.
+  cbn [apply_op]. destruct (new_route_regexp (filter_path pat)) as [cs| |] eqn:E; cbn [fst snd]; try discriminate.
+  intros _. cbn [st_routes st_default]. split; [|split].
+  - exists cs. split; [reflexivity|]. now rewrite map_set_get, str_eqb_refl.
+  - intros k Hk. rewrite map_set_get. rewrite (proj2 (str_eqb_neq _ _)); [reflexivity|congruence].
+  - reflexivity.
+Qed.
+
+(* HandleRemove(pat) that returned nil: pat is no longer registered, every
+   other pattern keeps its route *)
+Theorem remove_effect st pat : snd (apply_op st (ORemove pat)) = ResOk ->
+  let st' := fst (apply_op st (ORemove pat)) in
+  map_get (st_routes st') (filter_path pat) = None /\
+  (forall k, k <> filter_path pat -> map_get (st_routes st') k = map_get (st_routes st) k) /\
+  st_default st' = st_default st.
+Proof.
+  cbn [apply_op]. destruct (map_has (st_routes st) (filter_path pat)); cbn [fst snd]; try discriminate.
+  intros _. cbn [st_routes st_default]. split; [|split].
+  - now rewrite map_del_get, str_eqb_refl.
+  - intros k Hk. rewrite map_del_get. rewrite (proj2 (str_eqb_neq _ _)); [reflexivity|congruence].
+  - reflexivity.
+Qed.
+
+(* an operation that failed (error or panic) changes nothing; DefaultHandle
+   changes the default handler only *)
+Theorem failed_op_effect st o : snd (apply_op st o) <> ResOk -> fst (apply_op st o) = st.
+Proof.
+  destruct o as [pat [h|]|pat|h]; cbn [apply_op].
+  - destruct (new_route_regexp (filter_path pat)); cbn [fst snd]; congruence.
+  - reflexivity.
+  - destruct (map_has (st_routes st) (filter_path pat)); cbn [fst snd]; congruence.
+  - cbn [fst snd]. congruence.
+Qed.
+Theorem default_effect st h :
+  st_routes (fst (apply_op st (ODefault h))) = st_routes st /\ st_default (fst (apply_op st (ODefault h))) = h.
+Proof. split; reflexivity. Qed.
+
+Lemma nodup_pat_unique rs : NoDup (map r_pat rs) -> forall a b, In a rs -> In b rs -> r_pat a = r_pat b -> a = b.
+Proof.
+  induction rs as [|r0 rs IH]; intros Hnd a b Ha Hb E; [destruct Ha|].
+  cbn [map] in Hnd. inversion Hnd as [|? ? Hni Hnd']; subst.
+  destruct Ha as [->|Ha], Hb as [->|Hb].
+  - reflexivity.
+  - exfalso. apply Hni. rewrite E. now apply in_map.
+  - exfalso. apply Hni. rewrite <- E. now apply in_map.
+  - now apply IH.
+Qed.
+
+(* TAKE-OVER: whatever was dispatched before (in particular the same path,
+   while another route was its longest match), a dispatch goes to the route [b]
+   that is, at that moment, registered, matching and strictly longer than every
+   other matching registered route -- e.g. a route registered by the last
+   operation *)
+Theorem hist_takeover st0 mws pre segs order post b : wf st0 ->
+  Forall (fun m => snd m = true) mws ->
+  let st := apply_ops st0 (hops pre) in
+  let path := filter_path (path_of segs) in
+  Permutation order (routes_of st) ->
+  In b (routes_of st) -> path_match b path = true ->
+  (forall r, In r (routes_of st) -> path_match r path = true -> r_pat r <> r_pat b ->
+             (length (r_pat r) < length (r_pat b))%nat) ->
+  exists out, nth_error (run_hist st0 mws (pre ++ HServe segs order :: post)) (hserves pre) = Some out /\
+              handlers_of (fst out) = [r_h b] /\ snd out = match_result (Some b) path.
+Proof.
+  intros Hwf Hmw st path Hp Hb Hbm Hlong.
+  destruct (hist_dispatch st0 mws pre segs order post Hwf) as [Hnth _]. fold st in Hnth.
+  exists (serve st mws order segs). split; [exact Hnth|].
+  destruct (serve_select st mws order segs Hp Hmw) as [(r & (Hin & Hm & Hmax) & Hh & Hpar)|(Hno & _ & _)].
+  - fold path in Hm, Hmax, Hpar.
+    assert (r = b) as ->; [|now split].
+    assert (Hwf' : wf st) by (unfold st; now apply apply_ops_wf).
+    apply (nodup_pat_unique _ (wf_pats st Hwf')); [exact Hin|exact Hb|].
+    destruct (str_eqb (r_pat r) (r_pat b)) eqn:E; [now apply str_eqb_eq|].
+    apply str_eqb_neq in E. specialize (Hlong r Hin Hm E). specialize (Hmax b Hb Hbm). lia.
+  - fold path in Hno. rewrite (Hno b Hb) in Hbm. discriminate.
+Qed.
